@@ -158,7 +158,8 @@ def create_named_sharded_matrix(
     """
     global counter
     if shape[sharding_axis] == 1:
-        sharding_axis = next(i for i, dim in enumerate(shape) if dim != 1)
+        # an all-ones shape (e.g. isotropic material on a 1x1x1 domain) has no other axis to shard along
+        sharding_axis = next((i for i, dim in enumerate(shape) if dim != 1), sharding_axis)
     named_sharding = get_named_sharding_from_shape(
         shape=shape,
         sharding_axis=sharding_axis,
